@@ -60,6 +60,14 @@ def r_C32(root):
                            "%s.scope_provider" % R_ref: pyeval.Callee("attached", log, ret) if attached else None,
                            "metamodel.scope_providers": table, "self.parser.metamodel.scope_providers": table, "default_scope": pyeval.Callee("default", log, ret),
                            "self.parser.debug": False, "self.debug": False, "metamodel.debug": False}
+                    # locals computed before the fragment (e.g. a hoisted class-name variable): bound from their single definition
+                    assigned = {x.id for st_ in frag for x in ast.walk(st_) if isinstance(x, ast.Name) and isinstance(x.ctx, ast.Store)}
+                    for x in [x for st_ in frag for x in ast.walk(st_) if isinstance(x, ast.Name) and isinstance(x.ctx, ast.Load)]:
+                        if x.id in env or x.id in assigned: continue
+                        v_ = fi.expand(ast.Name(id=x.id, ctx=ast.Load()), at=lst)
+                        if isinstance(v_, ast.Name): continue
+                        try: env[x.id] = pyeval.evaluate(v_, env)
+                        except pyeval.Unsupported: pass
                     try: pyeval.run_block(frag, env)
                     except pyeval.Unsupported as e: raise AnalysisError("provider selection in resolve_one_step: outside the evaluated subset: %s" % e)
                     except pyeval.Raised as e: log.append("raise " + e.cls)
